@@ -23,7 +23,7 @@ FLAGS = ["dictionary_indices_are_a_permutation", "prover_identical", "verifier_i
          "decompressed_witness_count_identical"]
 
 
-def routes(run):
+def routes(run, only=None, prop="C15"):
     quick = run.tier == "quick"
     shapes = []
     # (symbolic selector values, public inputs, custom gates, dictionary entries as selectors, hades dictionary)
@@ -34,6 +34,8 @@ def routes(run):
     shapes += [(8, 2, 1, 0, 1), (8, 2, 0, 1, 1), (8, 2, 1, 1, 1), (8, 2, 0, 1, 0), (8, 2, 1, 0, 0)]
     if not quick:
         shapes += [(600, 5, 1, 1, 1), (3000, 40, 0, 0, 1)]
+    if only is not None:
+        shapes = list(only)
     seen, table = set(), []
     for shape in shapes:
         if shape in seen:
@@ -59,8 +61,8 @@ def routes(run):
             rv = rb["outputs"]["flags"].get(f)
             d = os.path.join(fw.OUT, "cex")
             os.makedirs(d, exist_ok=True)
-            path = os.path.join(d, f"C15_{tag}_{f}.json".replace("/", "_"))
-            json.dump({"property": "C15", "driver": args, "seed": run.seed, "flag": f, "symbolic": v, "real": rv,
+            path = os.path.join(d, f"{prop}_{tag}_{f}.json".replace("/", "_"))
+            json.dump({"property": prop, "driver": args, "seed": run.seed, "flag": f, "symbolic": v, "real": rv,
                        "all_flags_real": rb["outputs"]["flags"], "detail": rb["outputs"].get("first_gate_difference"),
                        "replayed": rv is not True}, open(path, "w"), indent=1)
             if rv is not True:
